@@ -388,7 +388,11 @@ Proof.
     apply andb_prop in Hdom. destruct Hdom as [Hs Hd]. apply nonempty_true in Hs. apply nonempty_true in Hd.
     cbn [step sstep] in Est, Ess. destruct (path_eqb src dst).
     + injection Est as <- <-. injection Ess as <- <-. split; [reflexivity|exact HR].
-    + assert (Hfn : find_node (st_store st) src = find (st_store st) src) by (destruct src; [congruence|reflexivity]).
+    + destruct (raw_meta src || raw_meta dst).
+      { (* a key with '%', '?' or '#': trigger 7 *)
+        destruct (copy_obj c st (raw_path src) (raw_path dst)) as [[? ?] ?]. discriminate. }
+      unfold copy_obj in Est. cbv beta iota zeta in Est.
+      assert (Hfn : find_node (st_store st) src = find (st_store st) src) by (destruct src; [congruence|reflexivity]).
       pose proof (R1 src) as Hsrc. unfold obj_at in Hsrc.
       rewrite Hfn in Est. destruct (find (st_store st) src) as [[|fs]|] eqn:Efs.
       2: { destruct (http_put (st_store st) dst (store_body c (fetch_any (st_store st) src))) as [s' ok] eqn:Ep.
@@ -470,7 +474,17 @@ Proof.
         -- eapply put_part_refines; eauto.
   - (* MpCopy *)
     rename Hdom into Hs. apply nonempty_true in Hs.
-    cbn [step sstep] in Est, Ess. unfold get_upload in Est.
+    cbn [step sstep] in Est, Ess.
+    (* a source key with '%', '?' or '#': trigger 7 unless the request is refused before the source is read *)
+    assert (Est' : mp_copy c st u n false (Some src) rg = (st', r, [])).
+    { destruct (raw_meta src); [|exact Est]. revert Est. unfold mp_copy.
+      destruct (get_upload st u) as [up0|]; [|intros E; exact E].
+      destruct (u_dir up0) as [d0|]; [|intros E; exact E].
+      destruct (part_refused n); [intros E; exact E|].
+      destruct (raw_path src) as [s0|]; [destruct (fetch_range (st_store st) s0 rg)|];
+        cbn [flag app]; intros E; discriminate. }
+    clear Est. rename Est' into Est.
+    unfold mp_copy in Est. cbv beta iota zeta in Est. cbn [flag app] in Est. unfold get_upload in Est.
     assert (Hfn : find_node (st_store st) src = find (st_store st) src) by (destruct src; [congruence|reflexivity]).
     pose proof (R1 src) as Hsrc. unfold obj_at in Hsrc.
     pose proof (Forall2_nth_error up_rel _ _ (N.to_nat u) R3) as Hu.
@@ -717,6 +731,7 @@ Proof.
   intros c st o n Ho Hv.
   assert (Hr : part_refused n = true) by (rewrite part_refused_valid, Hv; reflexivity).
   destruct o; try discriminate; injection Ho as ->; cbn [step]; unfold put_part;
+    try (destruct (raw_meta src)); unfold mp_copy;
     destruct (get_upload st u) as [up|]; try (exists RNoUpload; split; reflexivity);
     destruct (u_dir up); try (exists RNoUpload; split; reflexivity);
     rewrite Hr; exists RErr; split; reflexivity.
@@ -763,3 +778,74 @@ Qed.
 (* the part list that raises no trigger 6 selects every uploaded part *)
 Theorem pick_all : forall h, pick (map fst (parts_of h)) (parts_of h) = Some (map snd (parts_of h)).
 Proof. intros h. apply pick_self. apply parts_of_ascending. Qed.
+
+(* ---------- finding 7: the raw key in the filer URL of CopyObject / UploadPartCopy ---------- *)
+(* on every key without '%', '?', '#' (blank, '+', '&', '=' and all other characters included) the
+   raw-URL route sees the literal key, like urlPathEscape and the gRPC routes *)
+Lemma seg_cut_literal : forall g, seg_meta g = false -> seg_cut g = (g, false).
+Proof.
+  induction g as [|a r IH]; cbn [seg_meta seg_cut]; intros H; [reflexivity|].
+  apply orb_false_iff in H. destruct H as [H1 H2]. unfold is_meta in H1.
+  apply orb_false_iff in H1. destruct H1 as [_ H1]. rewrite H1. rewrite (IH H2). reflexivity.
+Qed.
+Lemma seg_unescape_literal : forall g, seg_meta g = false -> seg_unescape g = Some g.
+Proof.
+  induction g as [|a r IH]; intros H; [reflexivity|]. cbn [seg_meta] in H.
+  apply orb_false_iff in H. destruct H as [H1 H2]. unfold is_meta in H1.
+  apply orb_false_iff in H1. destruct H1 as [H0 _].
+  cbn [seg_unescape]. rewrite H0. rewrite (IH H2). reflexivity.
+Qed.
+Lemma raw_cut_literal : forall k, raw_meta k = false -> raw_cut k = k.
+Proof.
+  induction k as [|g r IH]; intros H; [reflexivity|]. unfold raw_meta in H. cbn [existsb] in H.
+  apply orb_false_iff in H. destruct H as [H1 H2]. cbn [raw_cut]. rewrite (seg_cut_literal g H1).
+  rewrite (IH H2). reflexivity.
+Qed.
+Lemma raw_unescape_literal : forall k, raw_meta k = false -> raw_unescape k = Some k.
+Proof.
+  induction k as [|g r IH]; intros H; [reflexivity|]. unfold raw_meta in H. cbn [existsb] in H.
+  apply orb_false_iff in H. destruct H as [H1 H2]. cbn [raw_unescape]. rewrite (seg_unescape_literal g H1).
+  rewrite (IH H2). reflexivity.
+Qed.
+Theorem raw_path_literal : forall k, raw_meta k = false -> raw_path k = Some k.
+Proof. intros k H. unfold raw_path. rewrite (raw_cut_literal k H). apply raw_unescape_literal. exact H. Qed.
+
+(* .. so a copy between such keys reads and writes the literal keys and raises no trigger 7 *)
+Theorem copy_literal_keys : forall c st src dst, raw_meta src = false -> raw_meta dst = false ->
+  step c st (Copy src dst) =
+    (if path_eqb src dst then (st, RErr, []) else copy_obj c st (raw_path src) (raw_path dst)) /\
+  raw_path src = Some src /\ raw_path dst = Some dst /\
+  forall u n r, step c st (MpCopy u n src r) = mp_copy c st u n false (raw_path src) r.
+Proof.
+  intros c st src dst Hs Hd. rewrite (raw_path_literal src Hs), (raw_path_literal dst Hd).
+  cbn [step]. rewrite Hs, Hd. cbn [orb]. repeat split; reflexivity.
+Qed.
+
+(* the full statement (every route stores and reads a key under the literal key) fails on the code:
+   CopyObject from "t?u" reads "t" *)
+Theorem copy_raw_key_refuted :
+  let kt := ["t"%string] in let kq := ["t?u"%string] in let kf := ["f"%string] in
+  let ops := [Put kt [1]; Put kq [2; 3]; Copy kq kf; Get kf None] in
+  forallb op_in_domain ops = true /\
+  run cfg_plain init_state ops = ([ROk; ROk; ROk; RData [1]], [7], snd (run cfg_plain init_state ops)) /\
+  fst (srun sinit ops) = [EOk; EOk; EOk; EData [2; 3]] /\
+  all2 meets (fst (srun sinit ops)) (fst (fst (run cfg_plain init_state ops))) = false.
+Proof. vm_compute. repeat split; reflexivity. Qed.
+
+(* non-vacuity: one key with a blank and one with '+', '&', '=' through every route (HTTP-proxied
+   put / get / delete, gRPC-side batch delete and multipart completion, raw-URL copy and part copy):
+   no trigger fires and every answer is the specification's *)
+Theorem cross_routes_example :
+  let kb := ["x y"%string] in let kp := ["dir one"%string; "i+n&a=b"%string] in
+  let ops := [Put kb [1; 2; 3]; BatchDel [kb]; Get kb None;
+              MpCreate kb; MpPut 0 2 [5; 5]; MpPut 0 1 [4]; MpComplete 0 [1; 2]; Get kb None;
+              Copy kb kp; Get kp (Some (RClosed 1 2)); Del kb; Get kb None;
+              MpCreate kb; MpCopy 1 1 kp None; MpComplete 1 [1]; Get kb None; BatchDel [kp; kb]; Get kp None] in
+  raw_meta kb = false /\ raw_meta kp = false /\
+  forallb op_in_domain ops = true /\
+  snd (fst (run cfg_plain init_state ops)) = [] /\
+  fst (fst (run cfg_plain init_state ops)) =
+    [ROk; ROk; RNotFound; ROk; ROk; ROk; ROk; RData [4; 5; 5]; ROk; RData [5; 5]; ROk; RNotFound;
+     ROk; ROk; ROk; RData [4; 5; 5]; ROk; RNotFound] /\
+  all2 meets (fst (srun sinit ops)) (fst (fst (run cfg_plain init_state ops))) = true.
+Proof. vm_compute. repeat split; reflexivity. Qed.
